@@ -148,6 +148,8 @@ where
     }
 
     fn poll_close(mut self: Pin<&mut Self>, cx: &mut Context<'_>) -> Poll<Result<(), Self::Error>> {
+        // the websocket close handshake waits for the peer before it flushes; push out what is still queued first
+        ready!(self.stream.poll_flush_unpin(cx)).map_err(|e| anyhow!(e))?;
         self.stream.poll_close_unpin(cx).map_err(|e| anyhow!(e))
     }
 }
